@@ -204,6 +204,20 @@ def run_step(step, instr, nets_cache):
     if spec not in nets_cache:
         nets_cache[spec] = detnets.serialize(spec)
     data, net = nets_cache[spec]
+    # second generation: the input of the observed compilation is the OUTPUT of compiling the network with `gen_opts[0]` (and that
+    # output compiled with `gen_opts[1]`, ...), all in this interpreter, through main
+    gen_failed = None
+    for g_opts in step.get("gen_opts") or []:
+        r0 = pipeline.compile_net(data, g_opts, name="net", reset=bool(step.get("reset")), introspect=False, entry="main")
+        if r0.status != "ok" or r0.out_model is None:
+            gen_failed = r0
+            break
+        data = r0.out_model
+    if gen_failed is not None:
+        st, diag = status_of(gen_failed)
+        return {"status": "earlier-generation:" + st, "diag": diag, "size": 0, "digest": "-", "figures": None, "debugdb": None,
+                "stale_hits": [], "stale_addr": [], "greedy_ties": 0, "own_hits": 0, "dupnames": detnets.has_duplicate_names(net),
+                "src_ops": [o.kind for o in net.ops], "model": None, "tb": gen_failed.tb[-700:]}
     instr.begin_step()
     d = tempfile.mkdtemp(prefix="velaverif_c14_")
     try:
@@ -302,7 +316,8 @@ def _in_fresh_process(scn):
 
 def _cli_job(job):
     """One command-line run in a subprocess under a given PYTHONHASHSEED."""
-    spec, opts, hseed, ext_dir = job
+    spec, opts, hseed, ext_dir = job[:4]
+    gen_opts = job[4] if len(job) > 4 else []
     data, net = detnets.serialize(tuple(spec))
     d = tempfile.mkdtemp(prefix="velaverif_c14cli_")
     try:
@@ -312,6 +327,22 @@ def _cli_job(job):
         env = dict(os.environ)
         env["PYTHONPATH"] = ext_dir + os.pathsep + common.REPO
         env["PYTHONHASHSEED"] = str(hseed)
+        # second generation: every earlier generation is its own command-line process; the observed run compiles the last output
+        for gi, g_opts in enumerate(gen_opts):
+            gd = os.path.join(d, "gen%d" % gi)
+            r0 = subprocess.run([common.PY, "-m", "ethosu.vela", path, "--output-dir", gd] + list(g_opts),
+                                env=env, cwd=d, capture_output=True, text=True, timeout=600)
+            prev = os.path.join(gd, "net_vela.tflite")
+            if not os.path.exists(prev):
+                # never compile the SOURCE in place of a missing earlier output: the observation says what happened instead
+                # (a process killed by a signal is the machine's doing, not the compiler's: harness failure)
+                if r0.returncode < 0:
+                    raise common.InfraError(f"earlier generation {gi} of a command-line chain was killed by signal {-r0.returncode}")
+                return {"status": f"earlier-generation:{gi}:rc={r0.returncode}", "diag": (r0.stderr or r0.stdout)[-200:], "size": 0, "digest": "-",
+                        "figures": None, "debugdb": None, "stale_hits": [], "stale_addr": [], "greedy_ties": 0,
+                        "dupnames": detnets.has_duplicate_names(net), "src_ops": [o.kind for o in net.ops], "model": None,
+                        "tb": (r0.stderr or "")[-500:]}
+            os.replace(prev, path)          # same file name for every generation: the name is part of the summary only
         r = subprocess.run([common.PY, "-m", "ethosu.vela", path, "--output-dir", os.path.join(d, "out")] + list(opts),
                            env=env, cwd=d, capture_output=True, text=True, timeout=600)
         outp = os.path.join(d, "out", "net_vela.tflite")
@@ -378,6 +409,14 @@ def with_acc(opts, acc):
     return out
 
 
+def net_key(s, hardcoded):
+    """identity of the model bytes a step compiles: the network spec, plus the options of the earlier generations when the step
+    compiles an output (a deterministic compiler gives the same bytes for the same spec and options - that is judged in the
+    first generation's own class)"""
+    g = s.get("gen_opts") or []
+    return tuple(s["net"]) + ((("gen",) + tuple(opt_key(o, hardcoded) for o in g)) if g else ())
+
+
 def make_scenarios(rng, n, hardcoded):
     kinds_w = (["shared_w"] * 3 + ["shared_w_dtype"] * 2 + ["mean"] * 3 + ["pad"] * 2 + ["lut2"] * 3 + ["dupnames"] * 2 +
                ["lut"] * 2 + ["cascade"] * 2 + ["cascade_chain"] + ["cpu"] * 2 + ["mixed"] * 3 + ["weights"] * 2 + ["elementwise"])
@@ -399,15 +438,18 @@ def make_scenarios(rng, n, hardcoded):
     pool += customs
     crashers = [(("weird", rng.randrange(1 << 20)), pipe_common.sample_config(rng, "mixed")) for _ in range(max(4, n // 10))]
 
-    def step(p, entry="main", reset=False, opts=None, keep=False):
+    def step(p, entry="main", reset=False, opts=None, keep=False, gen=None):
         spec, o = p
         o = o if opts is None else opts
         if entry != "main":
             o = []
-        return {"net": list(spec), "opts": list(o), "entry": entry, "reset": reset, "keep_model": keep or spec[0] == "dupnames"}
+        st = {"net": list(spec), "opts": list(o), "entry": entry, "reset": reset, "keep_model": keep or spec[0] == "dupnames"}
+        if gen:
+            st["gen_opts"] = [list(g) for g in gen]
+        return st
 
     scns = []
-    shapes = ["AB", "AA", "ABAB2", "accel", "entries", "entries", "crash_first", "debugdb", "AB", "AA", "mixed_reset", "twin"]
+    shapes = ["AB", "AA", "ABAB2", "accel", "entries", "entries", "crash_first", "debugdb", "AB", "AA", "mixed_reset", "twin", "gen2"]
     for i in range(n):
         shape = shapes[i % len(shapes)]
         a, b_ = rng.choice(pool), rng.choice(pool)
@@ -425,6 +467,22 @@ def make_scenarios(rng, n, hardcoded):
                 steps = [step(t0, entry="convert_bytes"), step(t1, opts=hardcoded), step(t0, entry="convert")]
             else:
                 steps = [step(t0, entry=how), step(t1, entry=how), step(t0, entry=how)]
+        elif shape == "gen2":
+            # second generation: compile the OUTPUT of (a, its options) again - with the same or with b's options - alone, after
+            # another compilation, twice in a row, as a third generation
+            other = a[1] if rng.random() < 0.6 else b_[1]
+            how = rng.choice(["alone", "after_b", "twice", "third", "after_first"])
+            g2 = step(a, reset=reset, opts=other, gen=[a[1]])
+            if how == "alone":
+                steps = [g2]
+            elif how == "after_b":
+                steps = [step(b_, reset=reset), g2]
+            elif how == "twice":
+                steps = [g2, dict(g2)]
+            elif how == "third":
+                steps = [step(a, reset=reset, opts=other, gen=[a[1], a[1]]), g2]
+            else:
+                steps = [step(a, reset=reset), g2]
         elif shape == "AB":
             steps = [step(a, reset=reset), step(b_, reset=reset)]
         elif shape == "AA":
@@ -461,7 +519,7 @@ def make_scenarios(rng, n, hardcoded):
     seen, alone = set(), []
     for sc in scns:
         for s in sc["steps"]:
-            k = (tuple(s["net"]), opt_key(s["opts"], hardcoded))
+            k = (net_key(s, hardcoded), opt_key(s["opts"], hardcoded))
             if k not in seen:
                 seen.add(k)
                 s1 = dict(s, entry="main", reset=False)
@@ -700,7 +758,7 @@ def obs_token(o, what):
 
 def main():
     ck = Check("C14", "other")
-    ck.lean_stage(["VelaVerif.Props.C14"])
+    ck.lean_stage(["VelaVerif.Props.C14", "VelaVerif.Props.C11Writer"])     # write_deterministic: the writer's only unordered collection
     pipeline.load_vela()
     hardcoded, info = entry_options()
     if ck.replay_arg:
@@ -711,7 +769,7 @@ def main():
         if st:
             scns.append({"id": 0, "shape": "alone", "steps": [dict(st, entry="main", reset=False, keep_model=True)]})
         if rp["scenario"]["shape"] == "cli":
-            cli_jobs = [(st["net"], st["opts"], st.get("hashseed", 0), common._ext_dir)]
+            cli_jobs = [(st["net"], st["opts"], st.get("hashseed", 0), common._ext_dir, st.get("gen_opts") or [])]
         else:
             scns.append(dict(rp["scenario"], id=1))
     else:
@@ -724,6 +782,17 @@ def main():
         cli_nets = customs[:ncust] + [pool[i % len(pool)] for i in range(ncli - min(ncust, len(customs)))]
         hseeds = [0, 1] + [ck.rng.randrange(2, 1 << 32) for _ in range(nseeds - 2)]
         cli_jobs = [(list(spec), opts, hs, common._ext_dir) for spec, opts in cli_nets for hs in hseeds]
+        # second generation on the command line: every generation in its own process (the truly fresh reference of a gen2 class)
+        g2steps, g2seen = [], set()
+        for sc in scns:
+            for st_ in sc["steps"]:
+                k_ = (net_key(st_, hardcoded), opt_key(st_["opts"], hardcoded))
+                if st_.get("gen_opts") and k_ not in g2seen:
+                    g2seen.add(k_)
+                    g2steps.append(st_)
+        for st_ in g2steps[:(12 if ck.thorough else 4)]:
+            for hs in hseeds[:2]:
+                cli_jobs.append((list(st_["net"]), st_["opts"], hs, common._ext_dir, st_["gen_opts"]))
     nsort = writer_sort_correspondence(ck, info)
     ngreedy = greedy_tie_probe(ck)
     nhill = hillclimb_repeat_probe(ck)
@@ -738,7 +807,7 @@ def main():
     classes = {}          # (net spec, option key) -> list of (obs, where)
 
     def add(spec, opts, obs, where):
-        classes.setdefault((tuple(spec), opt_key(opts, hardcoded)), []).append((obs, where))
+        classes.setdefault((net_key(where["step"], hardcoded) if where["step"].get("gen_opts") else tuple(spec), opt_key(opts, hardcoded)), []).append((obs, where))
 
     nsteps = 0
     probes = []
@@ -751,6 +820,9 @@ def main():
             ck.count("entry_" + s["entry"])
             ck.count("status_" + o["status"].split(":")[0])
             ck.count("kind_" + s["net"][0])
+            if s.get("gen_opts"):
+                ck.count("second_generation_steps")
+                ck.count("generation_%d_steps" % (len(s["gen_opts"]) + 1))
             if s["net"][0] in ("twin0", "twin1", "custom_codes"):
                 ck.count(s["net"][0].rstrip("01") + "_" + o["status"].split("@")[0][:40])
             if o["stale_hits"]:
@@ -765,8 +837,11 @@ def main():
         ck.count("shape_" + sc["shape"])
     for job, o in zip(cli_jobs, cli_results):
         ck.count("cli_subprocess_runs")
-        add(job[0], job[1], o, {"scenario": {"shape": "cli", "steps": [{"net": job[0], "opts": job[1], "entry": "cli", "hashseed": job[2]}]},
-                                 "step_index": 0, "step": {"net": job[0], "opts": job[1], "entry": "cli", "hashseed": job[2]}, "fresh": True})
+        cstep = {"net": job[0], "opts": job[1], "entry": "cli", "hashseed": job[2]}
+        if len(job) > 4 and job[4]:
+            cstep["gen_opts"] = job[4]
+            ck.count("cli_second_generation_runs")
+        add(job[0], job[1], o, {"scenario": {"shape": "cli", "steps": [cstep]}, "step_index": 0, "step": cstep, "fresh": True})
 
     lines, owners = [], []
     for key, members in classes.items():
@@ -824,7 +899,7 @@ def main():
                 continue
             reported.add(sig)
             sc = where["scenario"]
-            hist = "; ".join(f"{s['entry']}({s['net'][0]}#{s['net'][1]} {' '.join(s['opts'])}{' +reset' if s.get('reset') else ''})" for s in sc["steps"][:where["step_index"] + 1])
+            hist = "; ".join(f"{s['entry']}({s['net'][0]}#{s['net'][1]}{' OUTPUT-OF-' + str(s['gen_opts']) if s.get('gen_opts') else ''} {' '.join(s['opts'])}{' +reset' if s.get('reset') else ''})" for s in sc["steps"][:where["step_index"] + 1])
             ck.violation(
                 f"{what} of the same model and options differ: run #{where['step_index']} of [{hist}] gives {o['status']} "
                 f"size={o['size']} sha={o['digest'][:12]} but alone in a fresh interpreter it gives {ref['status']} size={ref['size']} sha={ref['digest'][:12]}"
@@ -839,13 +914,22 @@ def main():
         ck.sample({"class": [key[0][0], key[0][1], key[1]], "compared": what, "runs": len(sel), "verdict": v,
                    "first": obs_token(sel[0][0], what)[:160]})
 
+    # the TFLite writer alone, on generated graphs, under other hash seeds (harness/writer_stage.py; the model side is C11's)
+    n_whash = 0
+    if not ck.replay_arg:
+        import writer_stage
+
+        _wstats, wcases = writer_stage.function_stage(ck, 1500 if ck.thorough else 260, 0)
+        n_whash = writer_stage.hashseed_stage(ck, wcases, [1, 2, 3, 4, 5, 6, 7, 8] if ck.thorough else [11, 12, 13], 300 if ck.thorough else 60)
+
     ck.finish({
+        "writer_hashseed_cases": n_whash,
         "explanation": "Sequences of compilations are run inside one interpreter (fresh fork per sequence) through main / convert / "
                        "convert_bytes, plus command-line subprocesses under several PYTHONHASHSEED values; all runs of the same (model, "
                        "effective options) form a class whose (ending, output size, SHA-256, summary columns, debug database) the Lean "
                        "judge Determinism.agree must find identical. Props/C14 proves when the abstract process-state model is history "
                        "independent and exhibits the witnesses where the unchanged code is not.",
-        "evaluations": nsteps + len(cli_results) + nsort + ngreedy + nhill,
+        "evaluations": nsteps + len(cli_results) + nsort + ngreedy + nhill + n_whash,
         "greedy_tie_trials": ngreedy,
         "hillclimb_repeat_allocations": nhill,
         "compilations_observed": nsteps + len(cli_results),
